@@ -88,11 +88,17 @@ class N(object):
         return 'N(%r%s)' % (self.v, ', np' if self.np else '')
 
 
+class Dim(str):
+    """A symbolic axis length > 1.  Equal symbols are equal lengths, different symbols are different lengths (this is the
+    definition of the catalogue of operand shapes, so explicit comparisons of axis lengths are decided exactly)."""
+    __slots__ = ()
+
+
 class Arr(object):
     __slots__ = ('shape', 'val', 'item', 'singular', 'name')
 
     def __init__(self, shape, val=None, item=None, singular=False, name=None):
-        self.shape = tuple(shape)
+        self.shape = tuple(Dim(d) if isinstance(d, str) and not isinstance(d, Dim) else d for d in shape)
         self.name = name
         self.val = val if val is not None else lf_atom(('arr', name or 'anon'))
         self.item = item
@@ -839,6 +845,8 @@ class Interp(object):
             if isinstance(b, (list, tuple)) and all(isinstance(x, (str, int)) for x in b) and isinstance(a, (str, int)):
                 return (a in b) == isinstance(op, ast.In)
             raise AnalysisError('membership test `%s` is outside the shape interpreter' % short(node))
+        if isinstance(a, Dim) or isinstance(b, Dim):
+            return self.compare_dim(op, a, b, node)
         an, bn = isinstance(a, N), isinstance(b, N)
         if an or bn:
             num, other = (a, b) if an else (b, a)
@@ -868,6 +876,53 @@ class Interp(object):
         if isinstance(a, (ClassV, Opaque, ExcInst, FuncV)) or isinstance(b, (ClassV, Opaque, ExcInst, FuncV)):
             raise AnalysisError('comparison `%s` is outside the shape interpreter' % short(node))
         return self.py_compare(op, a, b, node)
+
+    def compare_dim(self, op, a, b, node):
+        """Comparison involving a symbolic axis length (> 1): with another symbol by identity, with small integers exactly."""
+        if isinstance(a, Dim) and isinstance(b, Dim):
+            same = str(a) == str(b)
+            if isinstance(op, ast.Eq):
+                return same
+            if isinstance(op, ast.NotEq):
+                return not same
+            if same and isinstance(op, (ast.LtE, ast.GtE)):
+                return True
+            if same and isinstance(op, (ast.Lt, ast.Gt)):
+                return False
+            raise AnalysisError('ordering of two different symbolic axis lengths in `%s`' % short(node))
+        dim_left = isinstance(a, Dim)
+        other = b if dim_left else a
+        if isinstance(other, bool) or not isinstance(other, int):
+            if isinstance(op, ast.Eq):
+                return False
+            if isinstance(op, ast.NotEq):
+                return True
+            raise AnalysisError('comparison of a symbolic axis length with `%s` in `%s`' % (describe(other), short(node)))
+        # the length is some integer >= 2
+        if isinstance(op, ast.Eq):
+            if other <= 1:
+                return False
+            raise AnalysisError('`%s` compares a symbolic axis length with %d' % (short(node), other))
+        if isinstance(op, ast.NotEq):
+            if other <= 1:
+                return True
+            raise AnalysisError('`%s` compares a symbolic axis length with %d' % (short(node), other))
+        kind = type(op)
+        if not dim_left:
+            kind = {ast.Lt: ast.Gt, ast.Gt: ast.Lt, ast.LtE: ast.GtE, ast.GtE: ast.LtE}.get(kind, kind)
+        if kind is ast.Gt:        # dim > other
+            if other <= 1:
+                return True
+        elif kind is ast.GtE:
+            if other <= 2:
+                return True
+        elif kind is ast.Lt:
+            if other <= 2:
+                return False
+        elif kind is ast.LtE:
+            if other <= 1:
+                return False
+        raise AnalysisError('`%s` compares a symbolic axis length with %d: not decided by "length >= 2"' % (short(node), other))
 
     @staticmethod
     def is_zero_literal(x):
@@ -1118,7 +1173,7 @@ class Interp(object):
             if isinstance(v, Arr):
                 if v.ndim == 0:
                     raise Raised(self.builtin_exc('TypeError', 'len() of unsized object', node))
-                return v.shape[0] if v.shape[0] == 1 else _Size((v.shape[0],))
+                return v.shape[0]
             raise AnalysisError('len() of `%s`' % describe(v))
         if name == 'bool' and len(args) == 1:
             return self.truth(args[0], node)
@@ -1188,6 +1243,8 @@ class Interp(object):
         if isinstance(v, Arr):
             chain = self.class_value(self.array_ci).chain
             return set(chain) | {'numpy.ndarray', 'object'}
+        if isinstance(v, Dim):
+            return {'int', 'numbers.Number', 'numbers.Integral', 'numbers.Real', 'numbers.Complex', 'object'}
         if isinstance(v, str):
             return {'str', 'object'}
         if isinstance(v, list):
